@@ -10,6 +10,7 @@ READY = True
 THEOREMS = [
     "C06.order_irrefl", "C06.order_asymm", "C06.order_trans", "C06.order_weak", "C06.order_total",
     "C06.order_numeric", "C06.order_num_lt_word", "C06.order_prefix", "C06.order_release_lt_master", "C06.order_sorted",
+    "C06.tag_release", "C06.tag_saved_version", "C06.tag_ignored",
     "C06.report_branches", "C06.no_nonmatching", "C06.only_matching", "C06.under_minimal_build",
     "C06.exactly_once", "C06.not_merged_exact", "C06.at_most_once", "C06.report_total", "C06.report_total_single",
 ]
@@ -18,17 +19,22 @@ OBSOLETE_PERIOD = 30 * G.DAY          # the window of the property statement ("3
 RULE = ("random commit graphs (6-16 commits, 8% extra roots, 30% merges incl. octopus, random parent order, 30% build tags, "
         "40% matching messages), 1-5 refs with heads anywhere (coinciding heads, heads inside other branches, non-release "
         "refs, master/main, numeric-aware name traps, names whose numbers are a proper prefix of another name's: "
-        "release/1.2 vs release/1.2.1); commit times anywhere in 0..30 days, not tied to the graph (heads older than the "
+        "release/1.2 vs release/1.2.1); tags are sent as names: build tags of release lines, master-style tags + VERSION "
+        "file, and on 25% of the random cases other tags (not build tags: wrong prefix/suffix/no number) and build tags in "
+        "unusual spellings (leading zeros, branch parts that only look like a release line); commit times anywhere in 0..30 days, not tied to the graph (heads older than the "
         "builds of lower-sorted branches by more than a day in ~25% of the cases; the window's edge values; 5% outside the "
         "window: compared with the model, not judged); exhaustive graphs of <=4 commits x 2 branches in thorough. "
         "non-trivial = at least one matching commit reachable from a release/master head; distinct by protocol line")
 TRUSTED = ["tests/mock_git.py (synthetic git objects fed to the real ak.ghist code)",
            "order of remote.refs (sorted by name, as mock_git and GitPython list them) — decides ties of equal sort keys only",
-           "re / int() on tag and branch names (ASCII names only)"]
+           "re / int() on tag and branch names (ASCII names without line breaks: \\d = 0-9, int() = decimal value)",
+           "the project-specific reading of the version file (tests-style `_read_saved_build_num_from_file`: major.minor)"]
 ASSUMPTIONS = ["commit times inside the 30-day window (quantifier of the property; Hist.InWindow in the theorems: no commit is more than "
                "_OBSOLETE_BRANCH_CUTOFF_PERIOD younger than the head of a release/master branch). Outside it the code drops "
                "branches as obsolete; the model does the same and is compared with the code there, the oracle does not judge",
                "ASCII ref names without whitespace or '+' (int() of a chunk succeeds iff it is a run of decimal digits)",
+               "a build tag that does not name its release line sits on a commit with a version file (otherwise the code carries "
+               "'?' for major and minor, which the model's build numbers do not express; the driver refuses such input)",
                "fewer than 10^9 report commits (pseudo build ids start at 1_000_000_000)"]
 
 translate = G.translate
@@ -48,10 +54,10 @@ def _report_text(rg):
     return "ok " + " ".join(out)
 
 
-def run_real(h, noise=False):
+def run_real(h):
     k = G.repo_classes()
     from ak.ghist import ReposCollection
-    repo = G.mock_repo(h, "r", TEXT, noise=noise)
+    repo = G.mock_repo(h, "r", TEXT)
     rc = ReposCollection({"r": k["StdTestRepo"]("r", repo, G.REMOTE)})
     data = rc.make_reports_data(TEXT)
     return data[0][1]
@@ -66,7 +72,7 @@ def impl(case):
             continue
         try:
             h = G.dec_hist(*args)
-            out.append(_report_text(G.with_timeout(2, run_real, h, case.get("meta", {}).get("noise", False))))
+            out.append(_report_text(G.with_timeout(2, run_real, h)))
         except Exception as e:
             out.append("err " + type(e).__name__)
     return out
@@ -290,8 +296,10 @@ def gen_hist(rng, n, nbr, exotic=False, prefix=False, times=None):
     return add_times(rng, {"commits": commits, "refs": refs}, times)
 
 
-def mk_case(h, kind, noise=False):
-    return {"lines": ["rep " + G.enc_hist(h)], "meta": {"kind": kind, "noise": noise}}
+def mk_case(h, kind, noise=None):
+    if noise is not None:
+        G.add_noise_tags(noise, h)
+    return {"lines": ["rep " + G.enc_hist(h)], "meta": {"kind": kind}}
 
 
 def small_hists(nmax, names=("master", "release/1.1")):
@@ -318,7 +326,7 @@ def gen_cases(rng, tier):
     for k in range(n_rand):
         n = 6 + k % 11
         nbr = 1 + k % 5
-        yield mk_case(gen_hist(rng, n, nbr), "random", noise=(k % 7 == 0))
+        yield mk_case(gen_hist(rng, n, nbr), "random", noise=(rng if k % 4 == 0 else None))
     for k in range(400 if tier == "quick" else 6000):
         yield mk_case(gen_hist(rng, 4 + k % 9, 2 + k % 4, exotic=True), "exotic-names")
     for k in range(500 if tier == "quick" else 8000):
@@ -382,7 +390,7 @@ def shrink(case):
                     q2 = q - 1 if q > k else q
                     if q2 not in ps:
                         ps.append(q2)
-            commits.append({"p": ps, "t": c["t"], "m": c["m"], "ts": c["ts"]})
+            commits.append(dict(c, p=ps))
         refs = []
         for nm, hd in h["refs"]:
             if hd == k:
@@ -443,6 +451,8 @@ def tags(case, replies):
             seen |= G.anc(h, hd)
     if any(len(c["p"]) > 1 for c in h["commits"]):
         yield "has-merge"
+    if any(c.get("xt") for c in h["commits"]):
+        yield "has-other-tags"
     ts = [c["ts"] for c in h["commits"]]
     if not in_window(h):
         yield "outside-30-day-window(not judged)"
@@ -471,10 +481,12 @@ LEVEL_TEXT = ("All clauses of the property are kernel-checked Lean theorems abou
               "model = code is established by a differential run of the compiled model against the real ak.ghist on synthetic "
               "histories fed through tests/mock_git.py; an independent ancestor-set oracle judges the real reports.")
 LEVEL_NOTE = ("Trusted: Lean kernel (axioms propext, Classical.choice, Quot.sound), translator of the constants of ak/ghist.py "
-              "(separators, sentinel, master names, fake build numbers, the two cut-off periods), adapter and mock git objects, "
+              "(separators, sentinel, master names, fake build numbers, the two cut-off periods, the literal pieces of the two "
+              "tag regexes), adapter and mock git objects, "
               "sampled correspondence (random DAGs 3-30 commits, 1-5 refs, times in and around the window, exhaustive <=4 commits x "
-              "2 branches in thorough). Not modelled: tag-name parsing (build numbers are passed to "
-              "the model as numbers; the real code parses the tag strings, incl. master-style tags completed from VERSION). The "
+              "2 branches in thorough). Tag names are parsed by the model (tag_release, tag_saved_version, tag_ignored: the two "
+              "regular expressions of ProjectRepo, their literal pieces read by the translator); not modelled: the '?' build "
+              "numbers of a master-style tag on a commit without version file. The "
               "theorems assume Hist.Topo (parents have smaller ids); report_total shows that the model always returns a report "
               "when the refs point to existing commits.")
 TECHNIQUE = ("Lean 4: invariants of the two nested DFS (well-formedness, frontier = nearest report ancestors, coverage of "
